@@ -667,3 +667,23 @@ Theorem c10_disp_raw_step_connecting_size : forall s pushes addr bs s' e,
 Proof. exact raw_step_connecting_size. Qed.
 
 Print Assumptions c10_disp_raw_step_connecting_size.
+
+(* the extracted predicate c10_disp_step_ok is not vacuous: observations it rejects *)
+Theorem c10_disp_step_ok_rejects :
+  let two := [(k551, true); (k661, true)] in
+  let mk pre rsts fwd post := {| so_pre := pre; so_rsts := rsts; so_fwd := fwd; so_post := post |} in
+  c10_disp_step_ok 5 (Some m_data51) (mk (obs0 two []) 0 [k551] (obs0 two [])) = true /\
+  c10_disp_step_ok 5 (Some m_data51) (mk (obs0 two []) 0 [k661] (obs0 two [])) = false /\
+  c10_disp_step_ok 5 None (mk (obs0 two []) 0 [k551] (obs0 two [])) = false /\
+  c10_disp_step_ok 5 (Some m_data51) (mk (obs0 two []) 0 [k551] (obs0 [(k551, true)] [])) = false /\
+  c10_disp_step_ok 5 (Some m_data51) (mk (obs0 two []) 0 [k551] (obs0 [(k551, true); (k661, false)] [])) = false /\
+  c10_disp_step_ok 5 None (mk (obs0 [] []) 0 [] (obs0 [(k551, true)] [])) = false /\
+  c10_disp_step_ok 5 (Some m_syn50) (mk (obs0 [] []) 0 [] (obs0 [(k661, true)] [])) = false /\
+  c10_disp_step_ok 5 (Some m_syn50) (mk (obs0 [] []) 0 [] (obs0 [(k551, true)] [])) = true /\
+  c10_disp_step_ok 5 (Some m_data51) (mk (obs0 [] []) 0 [] (obs0 [] [hk_syn_of 5 m_data51])) = false /\
+  c10_disp_step_ok 5 (Some m_syn50) (mk (obs0 [] []) 0 [] (obs0 [] [hk_syn_of 6 m_syn50])) = false /\
+  c10_disp_step_ok 5 (Some m_data51) (mk (obs0 [] []) 1 [] (obs0 [] [])) = false /\
+  c10_disp_step_ok 5 (Some m_syn50) (mk (obs0 [] []) 2 [] (obs0 [] [])) = false.
+Proof. exact step_ok_rejects. Qed.
+
+Print Assumptions c10_disp_step_ok_rejects.
